@@ -204,6 +204,14 @@ func (s *statsRec) HandleRPC(ctx context.Context, st stats.RPCStats) {
 		e.err = v.Error
 	case *stats.Begin:
 		e.cs, e.ss = v.IsClientStream, v.IsServerStream
+	// The metadata an event carries belongs to the stats handler (grpc-go hands out copies): this one
+	// redacts what it is given, as an audit logger might. The RPC must not notice.
+	case *stats.InHeader:
+		meddle(v.Header)
+	case *stats.OutHeader:
+		meddle(v.Header)
+	case *stats.OutTrailer:
+		meddle(v.Trailer)
 	}
 	s.mu.Lock()
 	s.events[id] = append(s.events[id], e)
@@ -211,6 +219,20 @@ func (s *statsRec) HandleRPC(ctx context.Context, st stats.RPCStats) {
 }
 func (s *statsRec) TagConn(ctx context.Context, _ *stats.ConnTagInfo) context.Context { return ctx }
 func (s *statsRec) HandleConn(context.Context, stats.ConnStats)                       {}
+
+func meddle(md metadata.MD) {
+	for k := range md {
+		delete(md, k)
+	}
+	if md != nil {
+		md["x-stats-redacted"] = []string{"1"}
+	}
+}
+
+// inKey is a request header every request carries; a locally served handler refuses the call without it.
+const inKey = "x-c18-in"
+
+var errNoIncoming = status.Error(codes.Unauthenticated, "request metadata "+inKey+" did not reach the handler")
 
 type intLog struct {
 	unaryCalls, streamCalls int
@@ -319,6 +341,10 @@ func execute(c Case, unaryInt, streamInt, withStats bool, behaviour string) (run
 			grpc.SetTrailer(ctx, metadata.Pairs("x-t", "2"))
 		}
 		hl.sawCtx = ctx.Value(ctxKey{}) == fm
+		if md, _ := metadata.FromIncomingContext(ctx); len(md.Get(inKey)) != 1 {
+			hl.err = errNoIncoming
+			return nil, errNoIncoming
+		}
 		if c.FailAfter >= 0 {
 			hl.err = errScripted
 			return nil, errScripted
@@ -336,6 +362,10 @@ func execute(c Case, unaryInt, streamInt, withStats bool, behaviour string) (run
 			ss.SetTrailer(metadata.Pairs("x-t", "2"))
 		}
 		hl.sawCtx = ss.Context().Value(ctxKey{}) == full
+		if md, _ := metadata.FromIncomingContext(ss.Context()); len(md.Get(inKey)) != 1 {
+			hl.err = errNoIncoming
+			return errNoIncoming
+		}
 		single := strings.HasSuffix(full, "/ServerS") || strings.HasSuffix(full, "/RawS")
 		raw := strings.HasSuffix(full, "/RawS")
 		for {
@@ -391,6 +421,7 @@ func execute(c Case, unaryInt, streamInt, withStats bool, behaviour string) (run
 	// request
 	var body bytes.Buffer
 	hdr := http.Header{}
+	hdr.Set(inKey, "v")
 	var req *http.Request
 	streamingClient := c.Shape == "client" || c.Shape == "bidi"
 	switch c.Transport {
